@@ -34,13 +34,15 @@ theorem tie_flightKeys : Gen.ResolverKeys.flightKeys =
 
 theorem tie_cacheKeys : Gen.ResolverKeys.cacheKeys =
     [("resolver.go:MemoizedTypesystemResolverFunc", ["\"TS\"", "storeID", "modelID"]),
-     ("model_caching.go:ModelCacheKey", ["ModelCacheKeyPrefix", "storeID", "modelID"])] := by
+     ("model_caching.go:ModelCacheKey", ["ModelCacheKeyPrefix", "storeID", "modelID"]),
+     ("resolver.go:CacheKey", ["CacheKeyPrefix", "storeID", "modelID"])] := by
   rfl
 
 /-- **every flight key mentions every argument of the datastore call it shares** -/
 theorem flight_keys_cover_calls : Gen.ResolverKeys.flightKeys.all keyCoversCall = true := by decide
 
-/-- both model caches are keyed by store AND model id -/
+/-- the model caches (typesystem memo, datastore model cache, weighted model graph of internal/modelgraph) are keyed
+by store AND model id -/
 theorem cache_keys_carry_store_and_model :
     Gen.ResolverKeys.cacheKeys.all (fun c => c.2.contains "storeID" && c.2.contains "modelID") = true := by decide
 
